@@ -460,6 +460,10 @@ def tidLe (a b : Nat × Nat) : Bool := a.1 < b.1 || (a.1 == b.1 && a.2 ≤ b.2)
 def daemonStep (toks : List String) : String :=
   match toks with
   | ["new"] => "ok"
+  | ["key", h] =>
+    match parseHdr h with
+    | some hd => let k := Daemon.key hd; s!"key={k.1}.{k.2}"
+    | none => "bad-op"
   | ["route", e, peers, hs] =>
     match e.toNat? with
     | some ent =>
